@@ -155,7 +155,8 @@ func (x *Exec) queryCases(s *Snap) []qcase {
 		cs = append(cs, c)
 	}
 	for _, n := range limit(names, 3, salt) {
-		for _, ph := range limit(provs, 4, salt) {
+		// (the empty provider is a legal argument too: no binding, no pending requests)
+		for _, ph := range append(limit(provs, 4, salt), "") {
 			n, ph := n, ph
 			pb, _ := hexDecode(ph)
 			c := qcase{name: "binding", desc: n + "/" + ph, addrLen: len(pb), grpcPath: "/irismod.service.Query/Binding", grpcReq: &types.QueryBindingRequest{ServiceName: n, Provider: pb},
